@@ -20,6 +20,7 @@ var monitors = map[string]func(*core.Child){
 	"c07": idlmon.C07,
 	"c09": idlmon.C09,
 	"c08": idlmon.C08,
+	"c10": idlmon.C10,
 }
 
 func main() { core.ChildMain(monitors) }
